@@ -107,6 +107,12 @@ HIERARCHIES = {
     "same-name-two-specs": [L("P1", "protocol", [], D(TABLE), D("CP_Baudrate")),
                             L("BV", "base-variant", ["P1"], D(TABLE, spec=DOIP_TABLE)),
                             L("EV", "ecu-variant", ["BV"], D(TABLE, spec=DOIP_TABLE), D("CP_Baudrate"))],
+    # protocol names one of which contains the other
+    "protocol-name-contains": [L("uds", "protocol", [], D("CP_Baudrate", "uds"), D(TABLE, "uds")),
+                               L("uds_fd", "protocol", [], D("CP_TesterPresentTime", "uds_fd")),
+                               L("BV", "base-variant", ["uds", "uds_fd"], D("CP_CanFuncReqId", "uds"),
+                                 D("CP_CanFuncReqId"), D("CP_TesterPresentTime")),
+                               L("EV", "ecu-variant", ["BV"], D("CP_Baudrate"))],
     # the parameter specification itself is read from ODX text; its first sub-parameter is a nested
     # complex parameter
     "spec-from-xml": [L("P1", "protocol", [], D(TABLE, spec=XML_TABLE), D("CP_Baudrate")),
@@ -114,7 +120,9 @@ HIERARCHIES = {
     # definitions read from ODX text, sub-values left out in the middle of the complex value
     "from-xml": [L("P1", "protocol", [], D(TABLE, xml=True, omit=("CP_CanPhysReqFormat", "CP_CanPhysReqExtAddr", "CP_CanRespUSDTId")),
                    D("CP_Baudrate", xml=True)),
-                 L("EV", "ecu-variant", ["P1"], D("CP_TesterPresentTime", xml=True))],
+                 L("EV", "ecu-variant", ["P1"], D("CP_TesterPresentTime", xml=True),
+                   D("CP_Baudrate", "P1", xml=True), D("CP_CanFuncReqId", "P1", xml=True),
+                   D("CP_CanFuncReqId", xml=True))],
     # CAN-FD parameters (concrete texts) next to the symbolic ones
     "can-fd": [L("P1", "protocol", [], D("CP_Baudrate"), D("CP_CANFDBaudrate"), D(TABLE),
                  D(FDLEN, fd="TX_DL=8")),
@@ -268,7 +276,9 @@ def run_resolve(sx, cfg, env):
                 else:
                     content[(tag, None)] = base
                     body = f"<SIMPLE-VALUE>{base}</SIMPLE-VALUE>"
-                pr = f'<PROTOCOL-SNREF SHORT-NAME="{d["protocol"]}"/>' if d["protocol"] else ""
+                # (a protocol-qualified definition names its protocol stack as well)
+                pr = (f'<PROT-STACK-SNREF SHORT-NAME="stack"/><PROTOCOL-SNREF SHORT-NAME="{d["protocol"]}"/>'
+                      if d["protocol"] else "")
                 entry["xml"] = (f'<COMPARAM-REF ID-REF="{entry.get("spec_id", "cps." + d["cp"])}">'
                                 f'{body}{pr}</COMPARAM-REF>')
             cps.append(entry)
